@@ -30,13 +30,14 @@ RULE = ('Convolution.forward on all digraphs n<=2 (loops) and n=3 (loop-free: al
         'all thorough), structured random weighted graphs n<=10, rectangular biadjacencies; per graph the 32 triples '
         '(normalisation {left,right,both,none} x self_embeddings x activation) are enumerated for n<=2 (and for n=3 in the '
         'thorough tier) and 6 of them sampled otherwise, and for each triple ONE adjacency container (csr, unsorted csr, csr with '
-        'duplicates, csc, coo, lil, bool/int dtype, dense, and the refused csr_array / np.matrix / dok), one feature container '
+        'duplicates incl. cancelling pairs, csc, coo, lil, bool/int/int32/uint8/float32 dtype, dense, and the refused csr_array / '
+        'np.matrix / dok), one feature container '
         '(dense, csr, csc, coo, lil, int), bias, 1..4 channels and the construction path (Convolution, get_layer, sage, loss as '
         'activation) are SAMPLED, not crossed; every square case again under a random renumbering; activation outputs/gradients '
         'and loss values/gradients on random signals (zeros, ties, large values, labels out of range, too many / one label) x 1..5 '
         'channels; predictions on outputs with ties and with no channel; neighbour sampler on random CSR (explicit zeros, '
         'unsorted) handed over as csr/csc/coo/lil/dense/duplicates x sample sizes, draws recorded from np.random.choice; '
-        'GNNClassifier fits (conv/sage/mixed per-layer lists, 1-2 layers, CE/BCE, 1..3 channels, every adjacency and feature '
+        'GNNClassifier fits (conv/sage/mixed per-layer lists or layers=[...] objects with activation / loss objects, 1-2 layers, CE/BCE, 1..3 channels, every adjacency and feature '
         'container, dict/array labels, validation 0/0.3/0.5, early stopping, n_epochs 0..6, normalizations incl. None, Adam/GD) '
         'checked through the adjacencies the fit itself used (_sample_nodes recorded), forward, labels_, predict_proba, a '
         'second fit with the same random_state and a refit with reinit=True; layer / loss / normalisation name tables. '
@@ -48,7 +49,7 @@ ASSUMPTIONS = ['numpy / scipy products, special.expit and special.softmax are th
                'normalisations divide by the ROW sums (right: A D^-1 with D = diag(A 1), column-stochastic only for symmetric A); the '
                'self-embedding is added after normalising (N(A) + I, not N(A + I)); a node of weight 0 gets the pseudo-inverse 0; '
                "normalisation 'both' is specified for non-negative row weights (the code returns NaN rows otherwise, not generated)",
-               'the sampler works on the stored non-zero entries (repaired) and gives every kept entry weight 1 (weights are not kept)',
+               'the sampler works on the neighbours of the denoted matrix (duplicates summed, zeros dropped: repaired) and gives every kept entry weight 1 (weights are not kept)',
                'container independence is observed (every container through the real code against the model on the denotation the '
                'harness computes), the Lean theorems about containers are facts about that denotation',
                'seed determinism (second fit, reinit refit) is observed only; the theorem is C16\'s']
